@@ -118,6 +118,33 @@ func TestVerifEnumC15(t *testing.T) {
 	rdvs = append(rdvs, rdv{"valid-sdp-but-not-an-answer", &scriptedRendezvous{reply: mustEnc(`{"type":"answer","sdp":"v=0\r\no=- 1 2 IN IP4 127.0.0.1\r\ns=-\r\nt=0 0\r\n"}`)}, false})
 	rdvs = append(rdvs, rdv{"valid-answer-data-channel-never-opens", answeringRendezvous{}, true})
 
+	// the NAT-type probe the client starts in a goroutine of its own for the same ICE list (NewSnowflakeClient:
+	// "go updateNATType(iceServers, broker)"): a panic there is a panic of the client process, with nobody to
+	// recover it.  Called synchronously here, for the lists an -ice option or SOCKS argument can produce.
+	for _, ice := range append(append([][]string{}, iceConfigs...), []string{" "}, []string{"", "stun:127.0.0.1:1"}, []string{"stun:127.0.0.1:1", ""}, []string{"stun:127.0.0.1:1", " ", "foo"}) {
+		if !r.Mine() {
+			continue
+		}
+		key := fmt.Sprintf("natprobe ice=%q", ice)
+		r.Case(key, true)
+		bc := &BrokerChannel{Rendezvous: &scriptedRendezvous{err: errors.New("unused")}, natType: "unknown"}
+		finished := make(chan struct{})
+		var p bool
+		var val, stack string
+		go func() {
+			defer close(finished)
+			p, val, stack = en.Try(func() { updateNATType(parseIceServers(ice), bc) })
+		}()
+		select {
+		case <-finished:
+			if p {
+				r.Fail("natprobe:panic@"+en.PanicSite(stack), "the NAT-type probe started by NewSnowflakeClient panicked (it runs in its own goroutine: this kills the client process): "+val+" "+stack, key)
+			}
+		case <-time.After(90 * time.Second):
+			r.Incomplete("NAT probe still running after 90 s for " + key + " (not judged)")
+		}
+	}
+
 	withEvent := 0
 	for ci, ice := range iceConfigs {
 		for _, rv := range rdvs {
